@@ -318,6 +318,18 @@ class Model:
     def op_rm_isohybrid(self, op):
         self.hybrid = None
 
+    def op_modify(self, op):
+        """modify_file_in_place: every name of the file's content now has the new content."""
+        node = self.get('iso', op['iso'])
+        old = node.blob
+        new = op['blob']
+        self.blobs[new] = Blob(new, op['len'], (), gen=self.generation)
+        for ns in self.roots:
+            for p, n in self.iter_ns(ns):
+                if n.kind == 'file' and n.blob == old:
+                    n.blob = new
+        self._gc()
+
     def op_dup_pvd(self, op):
         self.pvd_dups += 1
 
